@@ -64,6 +64,44 @@ CLAIMED = {
    note=COMMON_NOTE + "The world (best fitness, evaluation count, clock, controller estimate) is an arbitrary oracle; gens>=1 is justified by the generated return shapes of get_gens_to_evolve.",
    technique="Lean 4 proof (fuel-bounded loops, trace predicate) over tables regenerated from source + exact correspondence",
    design="5/C14"),
+ "C05": dict(
+   text="Lean theorems: an abstract interpreter over phase lists is sound w.r.t. a nondeterministic concrete semantics (abstract_sound, step_end_to_end, histories): if it accepts a "
+        "generational step, then in EVERY execution (all populations, all variation/selection choices, any deterministic fitness) every fitness read is of an evaluated individual and the "
+        "returned population is evaluated and fresh; the phase lists REGENERATED from the EA sources are accepted from an unevaluated entry population (generated_steps_safe). "
+        "Tie: translator (phase order) cross-checked against the observed call sequence of the real objects + read monitor on Chromosome.fitness + end-of-generation audit on real runs.",
+   note=COMMON_NOTE + "Containers are values (aliasing between the selection result and its source is not modelled). Known finding F5 (MuCommaLambda diagnostics) in known_findings.json.",
+   technique="Lean 4 proof (soundness of an abstract interpreter, induction over histories) over phase lists regenerated from source; read monitor on the implementation",
+   design="5/C05"),
+ "C07": dict(
+   text="Lean theorems over the metric and metric-derivative formulas REGENERATED from fitness_function.py/gradient_mixin.py: each metric equals its definition (metrics_defs), is minimal at zero "
+        "residual (minimal_at_zero*), each derivative function is the HasDerivAt-derivative of its metric along any differentiable residual family (gradient_correct_mse/rmse/mae/nmll), relative "
+        "scaling of vector and Jacobian (jacobian_assembly), every entry point increments eval_count exactly once (count_once over the generated increment table). "
+        "Tie: translator + formula-level correspondence + 80-digit oracle on real ExplicitRegression objects.",
+   note=COMMON_NOTE + "Float summation order and accuracy validated (1e-10 / 1e-8 / 1e-6). use_linear_correction mode is not covered.",
+   technique="Lean 4 proof (Mathlib HasDerivAt) over formulas regenerated from source + correspondence",
+   design="5/C07"),
+ "C08": dict(
+   text="Lean theorems over verbatim models of AgeFitness, Tournament, DeterministicCrowding: age-fitness only permutes its list, returns target..n members, every removal is NaN or dominated by an "
+        "individual alive and unmarked at the end of that round -- including the selection_size>2 branch where an already-marked individual removes another (af_round_justified, "
+        "af_removal_justified), terminates within n*WORST_CASE_FACTOR rounds (constant regenerated); tournament winners are members and minimal; crowding slots hold the parent or the paired child, "
+        "child iff strictly better or non-NaN vs NaN. Tie: logged draws replayed in the model, exact final order; identity-based oracle replaying every removal.",
+   note=COMMON_NOTE + "Random draws are oracle inputs under the contract 'duplicate-free, in range'. Probabilistic operators: membership/count by oracle only (log-scale mode); F14 (linear scale) not claimed.",
+   technique="Lean 4 proof (loop invariants, well-founded chain of justifications) + exact correspondence under logged draws",
+   design="5/C08"),
+ "C11": dict(
+   text="Lean theorems over a model of serial migration whose fraction is REGENERATED from the source: the multiset of individuals over all islands is preserved, equal sizes stay equal, paired "
+        "islands are fully unflagged, pairs are disjoint with exactly n%2 islands sitting out (serial_migration, exchange_*, pairing), round-half-even modelled exactly. "
+        "Tie: real SerialArchipelago migrations with logged shuffles compared exactly; generational age by oracle and source-shape fact. The parallel exchange is covered under C12.",
+   note=COMMON_NOTE + "np.random.shuffle is an arbitrary permutation (logged).",
+   technique="Lean 4 proof (List.Perm invariants) + exact correspondence under logged shuffles",
+   design="5/C11"),
+ "C19": dict(
+   text="Lean theorems over Evaluation: serial phase postcondition per slot and exact count (serial_phase, count_delta), multiprocess evaluation equals serial evaluation for EVERY completion order "
+        "(multiprocess_phase), totals over islands/archipelagos (island_total, archipelago_total). Tie: real Evaluation (serial and real worker pools with delays) vs the model; counting wrappers "
+        "around the base fitness entry points incl. local optimization.",
+   note=COMMON_NOTE + "multiprocessing.Pool returns each job's own result. Known finding F13 (template counter copied) in known_findings.json.",
+   technique="Lean 4 proof (permutation invariance of result application) + correspondence",
+   design="5/C19"),
 }
 
 REASONS = {p: "check not built yet in this round (planned, see DESIGN.md section 11)" for p in PROPS}
